@@ -3,7 +3,7 @@
    alter its arguments; what the theorems add is the exact footprint on the operator state that
    persists between operations.  Aliasing between Python objects is observed by the check (deep
    snapshots around every operation), not proved. *)
-From GE Require Import Base Tape Grammar Synth Linear SynthFrame LinearProofs.
+From GE Require Import Base Tape Grammar Synth Linear SynthFrame LinearProofs DnaExtends.
 Open Scope Z_scope.
 
 (* creation, mutation and crossover of trees leave the grammar's productions as they were (shared by
@@ -28,3 +28,11 @@ Theorem C09_tree_child_shares_donor_node : forall fuel g k donor rctx st v st',
   tree_cross_child fuel g k donor rctx st = (Ok v, st') -> In v (subnodes (d_start (g_decl g)) donor).
 Proof. exact tree_cross_child_is_donor_subtree. Qed.
 Print Assumptions C09_tree_child_shares_donor_node.
+(* a genotype handed to a mapping is never rewritten: whatever create_node does (any decider, any outcome), every gene list
+   in the state before the run is a prefix of the corresponding list after it *)
+Theorem C09_genes_are_never_rewritten : forall fuel g k t ctx deps st kk l,
+  tget (st_dna st) kk = Some l ->
+  exists l', tget (st_dna (snd (create_node fuel g k t ctx deps st))) kk = Some (l ++ l').
+Proof. exact create_node_extends_dna. Qed.
+Print Assumptions C09_genes_are_never_rewritten.
+
